@@ -252,6 +252,27 @@ func c14CtxMap(k int) (map[string]c14Context, []string) {
 }
 
 func init() {
+	kinds["c14.perid"] = func(raw json.RawMessage) string {
+		var cs c14Case
+		if err := json.Unmarshal(raw, &cs); err != nil {
+			return "bad case"
+		}
+		parts := strings.SplitN(cs.Family, ":", 3) // per-id:<form>:<id>
+		if len(parts) != 3 {
+			return "bad case"
+		}
+		forms := map[string][2]string{"term-vs-MIT": {"%s", "MIT"}, "MIT-vs-entry": {"MIT", "%s"}, "plus-vs-MIT": {"%s+", "MIT"}, "MIT-vs-plus-entry": {"MIT", "%s+"}, "self-plus": {"%s", "%s+"}}
+		f, ok := forms[parts[1]]
+		if !ok {
+			return "bad case"
+		}
+		cost := c14Measure("Satisfies/per-id", strings.ReplaceAll(f[0], "%s", parts[2]), []string{strings.ReplaceAll(f[1], "%s", parts[2])})
+		ref := c14Measure("Satisfies/per-id", strings.ReplaceAll(f[0], "%s", "Zlib"), []string{strings.ReplaceAll(f[1], "%s", "Zlib")})
+		if cost.Alloc >= c14Gi || (cost.Alloc > 16<<20 && ref.Alloc > 0 && cost.Alloc > 1000*ref.Alloc) {
+			return fmt.Sprintf("single-term call for id %s (%s) allocates %d bytes; the same call for Zlib allocates %d", parts[2], parts[1], cost.Alloc, ref.Alloc)
+		}
+		return ""
+	}
 	kinds["c14.case"] = func(raw json.RawMessage) string {
 		var cs c14Case
 		if err := json.Unmarshal(raw, &cs); err != nil {
@@ -290,7 +311,76 @@ func init() {
 	})
 }
 
+// c14PerID: the cost of a single-term call must not depend on WHICH listed id it names: every id, with
+// and without '+', on either side. A call is flagged if it allocates 1 GiB, or both 16 MiB and 1000
+// times the median of the same call over the other ids of the shard.
+func c14PerID(c *Ctx) {
+	type m struct {
+		desc string
+		cs   c14Case
+		cost c14Cost
+	}
+	ids := T().AllLicenseIDs()
+	forms := []struct{ name, expr, allowed string }{
+		{"term-vs-MIT", "%s", "MIT"}, {"MIT-vs-entry", "MIT", "%s"}, {"plus-vs-MIT", "%s+", "MIT"}, {"MIT-vs-plus-entry", "MIT", "%s+"}, {"self-plus", "%s", "%s+"},
+	}
+	c.Bound("per_id", map[string]any{"ids": len(ids), "forms": forms})
+	byForm := map[string][]m{}
+	for i, id := range ids {
+		if !c.Mine(int64(i)) || strings.HasSuffix(id, "+") {
+			continue
+		}
+		if c.Expired() {
+			return
+		}
+		for _, f := range forms {
+			expr := strings.ReplaceAll(f.expr, "%s", id)
+			al := strings.ReplaceAll(f.allowed, "%s", id)
+			desc := fmt.Sprintf("Satisfies/per-id | id %s form %s", id, f.name)
+			if !c.Begin(desc) {
+				continue
+			}
+			cost := c14Measure("Satisfies/per-id", expr, []string{al})
+			c.Inc("states")
+			c.Inc("transitions")
+			c.Inc("evaluations")
+			c.Inc("per_id_calls")
+			if cost.Panic {
+				c.Inc("skipped_panic")
+				continue
+			}
+			c.Inc("traces")
+			byForm[f.name] = append(byForm[f.name], m{desc, c14Case{Family: "per-id:" + f.name + ":" + id, Fn: "Satisfies/per-id", N: 1}, cost})
+		}
+	}
+	for name, l := range byForm {
+		allocs := make([]uint64, len(l))
+		for i, x := range l {
+			allocs[i] = x.cost.Alloc
+		}
+		sortU64(allocs)
+		med := allocs[len(allocs)/2]
+		for _, x := range l {
+			bad := x.cost.Alloc >= c14Gi || (x.cost.Alloc > 16<<20 && med > 0 && x.cost.Alloc > 1000*med) || x.cost.Dur > 10*time.Second
+			if bad {
+				c.Report(Violation{Kind: "c14.perid", Class: "cost:per-id:" + name, Key: "cost:" + x.cs.Family, Size: 1,
+					Msg:  fmt.Sprintf("%s allocated %d bytes in %v; the median of the same call over the other ids is %d bytes", x.desc, x.cost.Alloc, x.cost.Dur, med),
+					Case: mustJSON(x.cs)})
+			}
+		}
+	}
+}
+
+func sortU64(a []uint64) {
+	for i := 1; i < len(a); i++ {
+		for j := i; j > 0 && a[j] < a[j-1]; j-- {
+			a[j], a[j-1] = a[j-1], a[j]
+		}
+	}
+}
+
 func c14Run(c *Ctx) {
+	c14PerID(c)
 	k, B := 3, 2048
 	if c.Thorough() {
 		k, B = 5, 4096
